@@ -135,5 +135,8 @@ package fai
 //@   props C19
 //@   loop 0 invariant @offset sc != nil && 0 <= offset && offset == int64(tokpos(sc)) && 0 <= rec.Length && int64(rec.Length) <= offset &&
 //@       0 <= rec.BytesPerLine && rec.BytesPerLine <= 1048576 && 0 <= rec.BasesPerLine && rec.BasesPerLine <= 1048576
-//@   at stmt "rec.Start = offset + int64(len(sc.Bytes()))" assert rec.Start == int64(tokpos(sc))
+//@   ghost ghdr int
+//@   at entry ghost ghdr = 0 - 1
+//@   at stmt "lenID := bytes.IndexAny(b, " \t")" ghost ghdr = tokpos(sc)
+//@   loop 0 invariant @start ghdr >= 0 ==> rec.Start == int64(ghdr)
 //@   at stmt "lenID := bytes.IndexAny(b, " \t")" assume ret != 0
